@@ -55,6 +55,8 @@ def gen(rng, n):
             d["CLOSER"] = rng.choice([0, 0, 3])
             d["DELAY_MIN"] = d["DELAY_MAX"] = rng.choice([10000, 30000])
             d["STREAM_BYTES"] = rng.choice([20000, 100000, 300000])
+            d["WRITE_CHUNK"] = 100000
+            d["READ_MAX"] = 100000
             d["ECHO_BYTES"] = rng.choice([0, 100000])
             d["NBIDI"] = 1
             if rng.chance(1, 2):
@@ -68,6 +70,8 @@ def gen(rng, n):
             d["DELAY_MIN"] = d["DELAY_MAX"] = rng.choice([10000, 30000])
             t = 2 * d["DELAY_MIN"] * rng.range(4, 10)
             d["STREAM_BYTES"] = rng.choice([100000, 300000])
+            d["WRITE_CHUNK"] = 100000
+            d["READ_MAX"] = 100000
             d["NBIDI"] = 1
             d["ECHO_BYTES"] = rng.choice([0, 100000])
             d["CLOSER"] = rng.choice([0, 0, 3])
